@@ -46,6 +46,8 @@ CLAIMS["C18"] = ("The unit builder visits every command and key, hashes with the
 
 CLAIMS["C06"] = ("Every successful path of the (re)connection decision procedure is enumerated with its flags pruned: PSYNC is asked from the cache's edge only when the target's position is a valid cache offset (or a complete cached snapshot exists and the target has none), from the target's position otherwise with the cache cleared on that path, or from the initial point; a full resync clears the cache first; reader start, writer offset and snapshot size returned are the defined ones for full and partial paths; cache and bookkeeping get the same id, forced to the current one on CONTINUE; the wire routine formats offset+1, reports sent-1 only under CONTINUE and the parsed offset under FULLRESYNC.", "3/C06")
 
+CLAIMS["C19"] = ("Replies are stored only after classification succeeded (must, through all phi inputs); the classifier answers no code silently and on every path MOVED/ASK yields an error or the retry's own result; the sender's retry is constant-bounded and on every path returns nil only when its last attempt succeeded, with the failed batch still queued; per-node lists are append-only with forward send/receive and index reassembly; a transaction is re-dispatched only after a resolved redirect, a bounded number of times, with its commands untouched; transactional cluster mode switches client redirect handling off; escalation mapping preserves non-nil errors. Owner-at-that-time and per-key order under migrations are runtime behaviour and not decided.", "3/C19")
+
 NOT_YET = "check not built yet in this revision (planned, see DESIGN.md section 3)"
 
 def main():
